@@ -87,6 +87,36 @@ def run_one(sc, seed=0, keep=False):
         d.close()
 
 
+def preempt_worker(item):
+    """a failing operation with every party on a thread of its own; the client's receive thread, or the client's application
+    thread, is suspended for 2 ms at every source line it executes in the DM14 code: the failure still surfaces as an exception
+    naming the code and the following operations succeed"""
+    _k, sd, ops, thread, seed = item
+    acc = Acc()
+    base = {'seed': sd, 'base_lat': 0.2e-3, 'rx_threads': True}
+    counts = []
+    for _ in range(2):
+        d = DmWorld(dict(base, preempt={'thread': thread, 'point': 0}))
+        try:
+            d.run([dict(o) for o in ops])
+            counts.append(d.pre.count)
+            p0 = judge(d, ops)
+        finally:
+            d.close()
+    if counts[0] != counts[1] or p0:
+        acc.violation("HARNESS: DM14 pre-emption baseline not clean / not reproducible", {'cfg': base, 'ops': ops}, None, p0[:2] + [repr(counts)])
+        return acc
+    for pt in range(1, counts[0] + 1):
+        sc = {'cfg': dict(base, preempt={'thread': thread, 'point': pt, 'hold': 0.002}), 'ops': [dict(o) for o in ops]}
+        probs, outcome = run_one(sc, seed)[:2]
+        acc.case(repr(sc), nontrivial=True, outcome=outcome)
+        acc.add('transactions', len(ops))
+        if probs:
+            acc.violation(csig(probs), sc, None, probs[:3])
+    acc.sample({'scenario': {'cfg': base, 'ops': ops}, 'thread': thread, 'line_events': counts[0]})
+    return acc
+
+
 def scripted_one(sc, keep=False):
     """the real client against a scripted (foreign) DM14 server: its first answer is an error response - status 'busy' (1)
     or 'operation failed' (5), any first byte, an error code with an error indicator (EDCP 6 / 7) -; afterwards it serves a
@@ -193,6 +223,8 @@ def csig(probs):
 def worker(item):
     if item[0] == 'scripted':
         return scripted_worker(item)
+    if item[0] == 'preempt':
+        return preempt_worker(item)
     chunk, seed = item
     acc = Acc()
     for sc in chunk:
@@ -305,6 +337,11 @@ def run(tier, seed):
                         for client in ('facade', 'query'):
                             scr.append({'cmd': cmd, 'status': status, 'b0': b0, 'error': error, 'edcp': edcp, 'client': client})
     items += [('scripted', scr[i::8], seed) for i in range(8)]
+    for (sd, v) in ((0xA55A, 'wrongkey'), (None, 'refuse_respond'), (0xA55A, 'refuse_respond'), (None, 'refuse_proceed')):
+        for cmd in ('read', 'write'):
+            kw = {'error': 0x101, 'edcp': 7} if v == 'refuse_respond' else {}
+            for thread in ('R:C', 'cliapp'):
+                items.append(('preempt', sd, [fail(cmd, v, 4, **kw), ok('read')], thread, seed))
     return run_check(PROP, tier, seed, 'fault_enumeration', items, worker, RULE, ASSUME,
                      bounds={'history_depth': 3 if tier == 'quick' else 5, 'keys': 'boundary' if tier == 'quick' else 'all 2^16 x 3 seeds'})
 
